@@ -10,12 +10,14 @@ AUDIT = 'Audit/C03.lean'
 ANCHORS = ['txtorcon/torcontrolprotocol.py', 'txtorcon/util.py']
 RULE = ('sessions as in C01/C02 (commands, replies, events, listeners) in which the connection is lost at a random point — between '
         'messages, mid-line, mid-reply, mid-data-block — with 0..N commands queued, clean or unclean reason, followed by further '
-        'submissions and when_disconnected() requests on either side of the loss, some of them made from inside a disconnect notification; command texts include braces and percent signs; additionally every byte offset of each of the first '
+        'submissions and when_disconnected() requests on either side of the loss, some of them made from inside a disconnect notification; command texts include braces and percent signs; in some sessions the loss is reported from inside a result callback, a command failed by the loss is submitted again from its errback, or the debug log (start_debug) is on; additionally every byte offset of each of the first '
         'sessions is used as a cut point. non-trivial = loss with at least one command unanswered or a submission after the loss; '
         'distinct = distinct op lists')
 TRUSTED = ["SingleObserver and Deferred firing as observed through passive recording callbacks",
            "a request made from inside a disconnect notification is presented to the model and the spec as the request that follows the op "
-           "causing the notification; outputs of both are compared as one (sorted) group"]
+           "causing the notification; outputs of both are compared as one (sorted) group",
+           "a loss reported from inside a result callback is presented to the model as the loss that follows those bytes; the write of the "
+           "next queued command, which the model (no call stack) performs between the two, is left out of the comparison"]
 ASSUMPTIONS = ["no bytes are delivered after connectionLost (Twisted guarantees this)"]
 
 
@@ -25,7 +27,7 @@ def extract():
 
 def tagger(case, impl):
     ops = case['ops']
-    li = next((i for i, op in enumerate(ops) if op[0] == 'lost'), None)
+    li = next((i for i, op in enumerate(ops) if op[0] in ('lost', 'relost')), None)
     tags = []
     nontrivial = False
     if li is None:
@@ -41,7 +43,8 @@ def tagger(case, impl):
                  'clean' if ops[li][1] else 'unclean', 'cut-midline' if midline else 'cut-at-boundary',
                  'whendisc_before=%d' % min(2, sum(1 for op in ops[:li] if op[0] == 'whendisc')),
                  'whendisc_after=%d' % min(2, sum(1 for op in ops[li:] if op[0] == 'whendisc')),
-                 'nested=%d' % min(2, sum(1 for op in ops if op[0] == 'nested'))]
+                 'nested=%d' % min(2, sum(1 for op in ops if op[0] == 'nested')),
+                 'loss-in-callback' if any(op[0] == 'relost' for op in ops) else 'loss-plain', 'debuglog' if case.get('debug') else 'nodebuglog']
         nontrivial = pending_at_loss >= 1 or after >= 1
     return tags, nontrivial
 
@@ -85,7 +88,7 @@ def cut_variants(case, rng, max_cuts):
         for _ in range(rng.randint(0, 3)):
             nid += 1
             new_ops.append(rng.choice([['submit', nid, 'Z', rng.random() < 0.3], ['whendisc', nid]]))
-        yield {'acts': case.get('acts', {}), 'ops': new_ops, 'tls': tls}
+        yield {'acts': case.get('acts', {}), 'debug': case.get('debug'), 'ops': new_ops, 'tls': tls}
 
 
 def gen_cases(rng, tier):
@@ -93,7 +96,7 @@ def gen_cases(rng, tier):
     for k in range(n):
         ev = rng.random() < 0.5
         case = ctl.normalise_case(ctl.gen_session(rng, n_steps=rng.choice([15, 30, 50]), events=ev, listeners=ev, loss=True,
-                                                  acts_kinds=('r', 'x', 'rm', 'ad'), reenter=rng.random() < 0.3))
+                                                  acts_kinds=('r', 'x', 'rm', 'ad'), reenter=rng.random() < 0.4, debug=rng.random() < 0.2))
         yield ctlprop.to_json_case(case)
         if k < (40 if tier == 'quick' else 600):
             for v in cut_variants(case, rng, 8 if tier == 'quick' else 10 ** 6):
